@@ -1,6 +1,7 @@
 SPECIFICATION Spec
 CONSTANT Tab <- Schemas
-CONSTANT Depth = 4
+CONSTANT Depth = 5
+CONSTANT Rich = TRUE
 CONSTANT Sample = 0
 INVARIANT ValidCase
 INVARIANT RoundTrip
